@@ -22,7 +22,7 @@ PERIPHS = ['C', 'O', 'none']
 BOUNDS = {
     'quick': 'molecules of 3 atoms with symbolic adjacency; 2 centre patterns with a symbolic match flag per (pattern, atom); '
              'a remap rule with fractional and multi-target coefficients; correction descriptors over match tuples with '
-             'realised atom indices < 24 (pair matched in both directions plus a third match); one 6-ring with symbolic '
+             'realised atom indices < 24 (pair matched in both directions plus a third match; two patterns feeding one descriptor name; a real MolQuery filter with symbolic constraint outcomes over permuted embeddings); one 6-ring with symbolic '
              'element and bond type per position',
     'thorough': '3 atoms x 3 patterns and 4 atoms x 2 patterns; descriptor matches of size 3 in every rotation; every ring start',
 }
